@@ -380,6 +380,17 @@ fn pump_and_validate(w: &mut World) -> Vec<Issue> {
                              format!("{}: {f}", run.name()))]
             }
         }
+        // tasks that failed on the injected fault come back after 5 minutes
+        let idle = if round == 0 && idle {
+            let (runs, idle2) = w.quiesce_within(400, 6000);
+            for run in &runs {
+                if let Some(f) = run.fatal() {
+                    return vec![("daemon-would-exit-during-recovery".into(),
+                                 format!("{}: {f}", run.name()))]
+                }
+            }
+            idle2
+        } else { idle };
         if round == 0 && idle {
             // Whatever was committed before the fault has its follow-up
             // tasks in the queue: the queue alone - without anybody asking
@@ -389,7 +400,7 @@ fn pump_and_validate(w: &mut World) -> Vec<Issue> {
                 let (issues, _) = oracle::c01_check(w, &obs);
                 if !issues.is_empty() {
                     return issues.into_iter().map(|(s, d)| {
-                        (format!("after-recovery:queue-only:{s}"), d)
+                        (format!("after-recovery:{s}"), d)
                     }).collect()
                 }
             }
